@@ -149,8 +149,6 @@ def documented_newmark(ctx):
 N, NT, NZ = 2, 5, 2
 H = F.sym("h")
 UNC_F, CPL = True, False
-# exceptions the modelled numpy/python semantics raise for a genuinely failing operation (shape mismatch, bad index, singular solve ...)
-FAIL_EXC = {"ValueError", "IndexError", "TypeError", "KeyError", "LinAlgError", "StopIteration", "RuntimeError", "NotImplementedError"}
 
 
 def vec(name, n=N):
@@ -167,7 +165,7 @@ def _guard(ctx, tag, where, thunk):
     try:
         return True, thunk()
     except I.PyRaise as e:
-        if e.name in FAIL_EXC:
+        if e.genuine:
             ctx.fail(f"{tag}: runs on a valid configuration without raising", where, str(e))
         else:
             ctx.error(f"{tag}: evaluation", where, str(e))
@@ -190,10 +188,10 @@ class NLTerms:
     snapshot of the displacement array it sees and returns the symbols z<k>_<j>"""
 
     def __init__(self, with_T=True):
-        self.funcs = [I.Opaque("nl0"), I.Opaque("nl1")]
+        self.funcs = [I.Opaque("nl0", inert=True), I.Opaque("nl1", inert=True)]
         self.keys = ["k0", "k1"]
         self.T = [mat("T0", N, NZ), mat("T1", N, NZ)]
-        self.optargs = I.Opaque("optarg1")
+        self.optargs = I.Opaque("optarg1", inert=True)
         self.kwargs = [{}, {"opt": self.optargs}]
         self.calls = []      # dict(k, j, args, kwargs, snap)
 
@@ -244,6 +242,8 @@ def _nm_self(it, unc, terms=None, **extra):
         me.attrs.update(m=mat("M"), k=mat("K"), b=mat("B"), Ad=I.LU(inv=mat("iA")), A1=mat("A1"), A0=mat("A0"))
     if terms is not None:
         me.attrs.update(nonlin_terms=2, nl_dct=terms.nl_dct())
+    else:
+        me.absent.update({"nl_dct", "z"})        # only def_nonlin / the nonlinear start-up create them
     me.attrs.update(extra)
     return me
 
@@ -546,7 +546,11 @@ def r1_four_branch_agreement(ctx):
                 for j in range(NT):
                     for q in range(NZ):
                         mp[f"z{k_}_{j}_{q}"] = F.const(0)
-        same = _eq(_subs_arr(r.d, mp), base.d) and _eq(_subs_arr(r.De(), mp), base.De())
+        try:
+            same = _eq(_subs_arr(r.d, mp), base.d) and _eq(_subs_arr(r.De(), mp), base.De())
+        except Unsupported as e:
+            ctx.error(f"tsolve: comparison of the {_cfg(unc, nonlin)} arm with the uncoupled linear arm", fn, str(e))
+            continue
         ctx.check(same, f"tsolve: the {'uncoupled' if unc else 'coupled'}/{'nonlinear' if nonlin else 'linear'} arm is the uncoupled linear arm "
                         "(diagonal coefficient matrices, vanishing nonlinear terms)", fn)
     rs = runs.get((UNC_F, True))
